@@ -61,6 +61,12 @@ var c12Failing = []string{
 	`{{ mm.missing.name.deeper }}`,              // ... two steps before the end
 	`{{ arr[1:] }}`,                             // slicing an array held by value
 	`{{ arr[0:2] }}`,
+	`{{ s[up:] }}`,                              // slice bound of a non-numeric kind (uintptr)
+	`{{ str[:up] }}`,
+	`{{ s[cx] }}`,                               // index of complex kind
+	`{{ s[:bl] }}`,                              // slice bound of bool kind
+	`{{ "x" | nilv }}`,                          // pipe target that evaluates to no value
+	`{{ "x" | mm.present.missing }}`,            // ... a chain ending in a missing map key
 }
 
 func c12Vars(n int64) VarMap {
@@ -78,6 +84,9 @@ func c12Vars(n int64) VarMap {
 	var np *[]int
 	vars.Set("nilp", np)
 	vars.Set("nilv", nil)
+	vars.Set("up", uintptr(1))
+	vars.Set("cx", complex(1, 0))
+	vars.Set("bl", true)
 	return vars
 }
 
